@@ -30,7 +30,10 @@ func (n Name) pack(msg []byte, off int, compression map[string]uint16) (int, err
 	scanner := NewNameScanner(n)
 	for scanner.Scan() {
 		seg := scanner.Label()
-		labelStart := scanner.LabelOff()
+		// Offset of the label's length octet. The suffix used as the
+		// compression key must include it, otherwise "abc.com" and the single
+		// label "abc\x03com" would share a key.
+		labelStart := scanner.LabelOff() - 1
 		// We can only compress domain suffixes starting with a new
 		// segment. A pointer is two bytes with the two most significant
 		// bits set to 1 to indicate that it is a pointer.
